@@ -336,7 +336,7 @@ Lemma copy_ops_total st x1 y1 x2 y2 rects dx dy :
    (exists r, step st (OpDoCopyRegion rects dx dy) = Some r) /\
    (exists r, step st (OpSchedCopy rects dx dy) = Some r)).
 Proof.
-  split; intros Hc; [|split]; cbn [step];
+  split; intros Hc; [|split]; unfold step; cbn [op_target step0];
     match goal with |- context [do_copy st ?K dx dy ?f] =>
       destruct (do_copy_total st K dx dy f Hc) as [st' ->] end; eexists; reflexivity.
 Qed.
@@ -400,7 +400,7 @@ Lemma mark_outside_ignored st x1 y1 x2 y2 :
   Z.min (sW st) (Z.max x1 x2) <= Z.max 0 (Z.min x1 x2) \/ Z.min (sH st) (Z.max y1 y2) <= Z.max 0 (Z.min y1 y2) ->
   step st (OpMark x1 y1 x2 y2) = Some (st, []).
 Proof.
-  intros Hout. cbn [step]. destruct (mark_clip (sW st) (sH st) x1 y1 x2 y2) as [[[[a b] c] d]|] eqn:E; [|reflexivity].
+  intros Hout. unfold step. cbn [op_target step0]. destruct (mark_clip (sW st) (sH st) x1 y1 x2 y2) as [[[[a b] c] d]|] eqn:E; [|reflexivity].
   exfalso. pose proof (mark_clip_sem _ _ _ _ _ _ _ E) as Hs. cbn in Hs. lia.
 Qed.
 
@@ -431,7 +431,7 @@ Lemma tick_expired_sends st c :
   scaled_guard c = false -> pending st c && negb (rgn_is_empty (cR c)) = true ->
   xDefer (sExt st) <> 0 -> xDefU (cExt c) <> 0 ->
   (xNowS (sExt st) <? xDefS (cExt c)) || (elapsed_ms st c >? xDefer (sExt st)) = true ->
-  tick_client st c = send_client st (set_cext c (mkCExt (xDefS (cExt c)) 0 (cScaled c))).
+  tick_client st c = send_client st (set_cext c (ext_timer (cExt c) (xDefS (cExt c)) 0)).
 Proof.
   intros Hg Hp Hd Hu He. unfold tick_client. rewrite Hg, Hp.
   replace (xDefer (sExt st) =? 0) with false by lia. replace (xDefU (cExt c) =? 0) with false by lia.
